@@ -282,6 +282,19 @@ impl<'a, 'tcx> BodyCx<'a, 'tcx> {
                 }
             }
         }
+        // value of a named floating-point constant (bit pattern), so that sibling constants of different modules can be compared
+        if matches!(ty.kind(), ty::Float(_)) {
+            if let Const::Unevaluated(uv, _) = c.const_ {
+                if uv.promoted.is_none() {
+                    if let Some(si) = c.const_.try_eval_scalar_int(tcx, self.env) {
+                        j.comma();
+                        j.kv_num("fbits", si.to_bits(si.size()));
+                        j.comma();
+                        j.kv_num("fsize", si.size().bits() as u128);
+                    }
+                }
+            }
+        }
         j.raw("}");
     }
 
